@@ -28,11 +28,15 @@ vars == <<shape, done>>
 \* a shape: lead number?, core tokens, trailing number?, bracket suffix, mod part
 Shapes ==
   [lead : BOOLEAN, core : UNION {[1 .. n -> Core] : n \in 1 .. MaxTokens}, trail : {"none", "num", "year"},
-   bracket : {"none", "year", "edition"}, mod : {"none", "word", "twowords"}]
+   bracket : {"none", "year", "edition"}, mod : {"none", "word", "twowords"},
+   \* mag: the magnitude class of the inner / trailing numbers: "small" (one to four digits) or "wide" (also 0 and the values
+   \* around 2^8, 2^15, 2^16, 10^5, 2^31, 2^32, 2^64) - the grammar does not bound a number
+   mag : {"small", "wide"}]
 \* grammar side conditions: a roman numeral is never the first word; a name has at least one alphabetic token
 ShapeOk(s) == /\ s.core[1] # "roman"
               /\ \E i \in 1 .. Len(s.core) : s.core[i] \in {"word", "acronym", "hyphen"}
               /\ (s.lead => s.core[1] \notin {"num", "alnum"})
+              /\ (s.mag = "wide" => (s.trail = "num" \/ \E i \in 1 .. Len(s.core) : s.core[i] = "num"))
               /\ (s.trail # "none" => s.core[Len(s.core)] \notin {"num", "range"})
               /\ \A i \in 1 .. Len(s.core) - 1 : ~(s.core[i] \in {"num", "range"} /\ s.core[i + 1] \in {"num", "range"})
 
